@@ -4,6 +4,7 @@ import (
 	"bytes"
 	"crypto/sha256"
 	"fmt"
+	"strings"
 	"time"
 
 	"verif/simkit"
@@ -14,7 +15,12 @@ import (
 	"github.com/canopy-network/canopy/store"
 )
 
-type digest struct{ h interface{ Write([]byte) (int, error); Sum([]byte) []byte } }
+type digest struct {
+	h interface {
+		Write([]byte) (int, error)
+		Sum([]byte) []byte
+	}
+}
 
 func newDigest() *digest { return &digest{h: sha256.New()} }
 func (d *digest) add(k, v []byte) {
@@ -220,6 +226,11 @@ func (w *world) abandonProposal(ups []*node) {
 }
 
 func (w *world) honestRejected(r *node, pr *proposal, stage string, err error) {
+	if w.c.Prop == "C03" && err != nil && strings.Contains(err.Error(), "unequal block hash") {
+		// the replica executed the same block on the same prefix and computed another header than the proposer
+		w.c.ReportFor("C03", "deterministic-execution", "replica-recomputes-different-header",
+			fmt.Sprintf("%s at %s recomputed a different header for the block %s built for height %d on the same chain prefix (txs=%d)", r.name, stage, w.nodes[pr.proposer].name, pr.block.BlockHeader.Height, len(pr.block.Transactions)))
+	}
 	w.c.ReportFor("C11", "portability", "honest-proposal-rejected",
 		fmt.Sprintf("%s rejected at %s the block built by %s for height %d from the same chain prefix: %v (txs=%d)", r.name, stage, w.nodes[pr.proposer].name, pr.block.BlockHeader.Height, err, len(pr.block.Transactions)))
 }
